@@ -111,6 +111,17 @@ structure MutatorCall where
   copyPos : String
   deriving DecidableEq, Repr, Inhabited
 
+/-- a site `L = append(L, x…)` filling a local list that is released (Put) at the end of the function;
+`deleted`: a re-slicing deletion from a container follows in an enclosing block of the same pass -/
+structure DeferredRelease where
+  fn : String
+  list : String
+  pos : String
+  args : List String
+  deleted : Bool
+  deletionPos : String
+  deriving DecidableEq, Repr, Inhabited
+
 /-! ## Discipline of one variable (decidable; evaluated over the whole extracted table) -/
 
 def Site.inOnce (o : String) (s : Site) : Bool := s.sync == .once o
